@@ -172,7 +172,9 @@ def execute(case):
             res.fault('F-knob-strip'); differ += 1
             ok = cmp_ports(res, 'strip-changes-result', f'strip_forks off vs on ({p["cls"]})', o1, o2, ident)
             if not ok:
-                res.notes['nonmonotonic_fork_input'] = nonmonotonic_fork_input(h1, o1, res.notes.get('mismatch', {}).get('lane'))
+                # the precondition of known finding F4 is looked up in a run that keeps every waveform (no re-use)
+                hx, ox = wsim.run_config(built, case, dict(cfgA, c_reuse=False, poison=None), core.Result(), monitors=())
+                res.notes['nonmonotonic_fork_input'] = nonmonotonic_fork_input(hx, ox, res.notes.get('mismatch', {}).get('lane'))
                 return res
         elif kind == 'gpu':
             cfgB = dict(base, cls='gpu', sched=p['sched'], block=p['block'])
